@@ -13,6 +13,13 @@ import (
 
 var placeholder = []byte("placeholder")
 
+// errIs reports whether err is target, or carries target's message. The second form is needed for a DA layer
+// behind the JSON-RPC proxy: error identity does not survive the wire, only the message does (this is also how
+// RetrieveWithHelpers recognises "not found" and "height from future").
+func errIs(err, target error) bool {
+	return errors.Is(err, target) || strings.Contains(err.Error(), target.Error())
+}
+
 // SubmitWithHelpers performs blob submission using the underlying DA layer,
 // handling error mapping to produce a ResultSubmit.
 // It assumes blob size filtering is handled within the DA implementation's Submit.
@@ -41,15 +48,15 @@ func SubmitWithHelpers(
 		}
 		status := coreda.StatusError
 		switch {
-		case errors.Is(err, coreda.ErrTxTimedOut):
+		case errIs(err, coreda.ErrTxTimedOut):
 			status = coreda.StatusNotIncludedInBlock
-		case errors.Is(err, coreda.ErrTxAlreadyInMempool):
+		case errIs(err, coreda.ErrTxAlreadyInMempool):
 			status = coreda.StatusAlreadyInMempool
-		case errors.Is(err, coreda.ErrTxIncorrectAccountSequence):
+		case errIs(err, coreda.ErrTxIncorrectAccountSequence):
 			status = coreda.StatusIncorrectAccountSequence
-		case errors.Is(err, coreda.ErrBlobSizeOverLimit):
+		case errIs(err, coreda.ErrBlobSizeOverLimit):
 			status = coreda.StatusTooBig
-		case errors.Is(err, coreda.ErrContextDeadline):
+		case errIs(err, coreda.ErrContextDeadline):
 			status = coreda.StatusContextDeadline
 		}
 		logger.Error("DA submission failed via helper", "error", err, "status", status)
